@@ -166,6 +166,16 @@ def to_numeric(x, vals, elem_vals=None):
 
 
 def jsonable(x):
+    if isinstance(x, Sym):
+        try:
+            v = x.cval()
+            return jsonable(complex(v)) if isinstance(v, complex) else float(v)
+        except Exception:  # noqa: BLE001
+            return repr(x)
+    if isinstance(x, (SymBool, Elem)):
+        return repr(x)
+    if isinstance(x, np.ndarray) and x.dtype == object:
+        return [jsonable(v) for v in x.tolist()]
     if isinstance(x, np.ndarray):
         if np.iscomplexobj(x):
             return {"re": x.real.tolist(), "im": x.imag.tolist()}
@@ -230,6 +240,8 @@ class Obligation:
     wall_cap_s: float = 600.0
     abs_fork: bool = False    # |x| of a real symbolic x forks on the sign instead of creating a symbol
     weight: int = 1
+    witness: Callable[[], list] | None = None   # concrete inputs satisfying the precondition, tried during replay
+    exact_sqrt: bool = False  # np.sqrt of a plain non-square rational inside toqito returns the algebraic number (symbol s, s*s -> x)
     contracts: tuple = ()     # kernel contracts to assert at the kernel call ('eigh', 'svd', ...)
 
     def ident(self):
@@ -276,6 +288,7 @@ def run_obligation(ob: Obligation, seed=0):
         ctx = Ctx(ob.mode, ob.name)
         ctx.abs_fork = ob.abs_fork
         ctx.contracts = tuple(ob.contracts)
+        ctx.exact_sqrt = ob.exact_sqrt
         with use_ctx(ctx), symbolic_mode(objzeros=ob.objzeros, rng=ob.rng, extra=ob.extra_patch):
             z3.set_param("smt.random_seed", seed % 1000)
             b = Builder(ctx)
@@ -386,7 +399,7 @@ def run_obligation(ob: Obligation, seed=0):
         rec["notes"].append(f"harness exception {type(e).__name__}: {e}")
         rec["trace"] = traceback.format_exc()[-2500:]
     rec["wall_s"] = round(time.time() - t0, 3)
-    return rec
+    return json.loads(json.dumps(rec, default=str))
 
 
 def numeric_run(ob, ninputs):
@@ -428,9 +441,15 @@ def replay_candidates(ob, ctx, inputs, cand_vals, seed):
                 except Exception:  # noqa: BLE001
                     vals[a.id] = 0
         tries.append(vals)
-    for k, vals in enumerate(tries):
+    extra = []
+    if ob.witness is not None:
         try:
-            ninputs = to_numeric(inputs, vals, {})
+            extra = list(ob.witness())
+        except Exception:  # noqa: BLE001
+            extra = []
+    for k, vals in enumerate(tries + extra):
+        try:
+            ninputs = to_numeric(inputs, vals, {}) if k < len(tries) else vals
             if ob.valid is not None and not ob.valid(ninputs):
                 continue
             ok, detail = numeric_verdict(ob, ninputs)
@@ -439,7 +458,7 @@ def replay_candidates(ob, ctx, inputs, cand_vals, seed):
         except Exception as e:  # noqa: BLE001
             continue
         if not ok:
-            return {"source": "solver model" if k < len(cand_vals) else "generic point after solver sat",
+            return {"source": "solver model" if k < len(cand_vals) else ("generic point after solver sat" if k < len(tries) else "harness witness after solver sat"),
                     "inputs": jsonable(ninputs), **detail}
     return None
 
@@ -449,6 +468,7 @@ def translator_validation(ob, seed):
     try:
         ctx = Ctx(ob.mode, ob.name + "#tv")
         ctx.abs_fork = ob.abs_fork
+        ctx.exact_sqrt = ob.exact_sqrt
         with use_ctx(ctx), symbolic_mode(objzeros=ob.objzeros, rng=ob.rng, extra=ob.extra_patch):
             b = Builder(ctx, concrete_seed=seed + 1)
             inputs = ob.build(b)
